@@ -79,6 +79,16 @@ IdCore == {N2(o, a, c) : o \in {"and", "or"}, a \in IdOperands, c \in Consts}
           \cup {B(o, c, a) : o \in {"b_and", "b_or"}, a \in IdOperands, c \in {Num(0, 1), Num(1, 1), Num(2, 1)}}
           \cup {N2(o, N2(o, a, c), V("q")) : o \in {"and", "or"}, a \in IdOperands, c \in {Num(0, 1), Num(1, 1)}}
 IdTrees == IdCore \cup {B("mul", Num(3, 1), t) : t \in IdCore} \cup {B("add", t, V("y")) : t \in IdCore} \cup {U("not", t) : t \in IdCore}
+\* family "idvar": the same around an operand that is a numeric VARIABLE once it is simplified (x + 0, 1 * x):
+\* the simplifier lets a variable stand for `x or false`, so the compiler has to refuse these like `x or false`
+\* itself (judged at model level only: C16)
+IdVarOperands == {B("add", V("x"), Num(0, 1)), B("mul", Num(1, 1), V("x")), B("mul", V("x"), Num(1, 1)), B("sub", V("x"), Num(0, 1)),
+                  U("neg", U("neg", V("x"))), B("div", V("x"), Num(1, 1))}
+IdVarCore == {N2(o, a, c) : o \in {"and", "or"}, a \in IdVarOperands, c \in {Num(0, 1), Num(1, 1)}}
+             \cup {N2(o, c, a) : o \in {"and", "or"}, a \in IdVarOperands, c \in {Num(0, 1), Num(1, 1)}}
+             \cup {B(o, a, c) : o \in {"b_and", "b_or"}, a \in IdVarOperands, c \in {Num(0, 1), Num(1, 1)}}
+IdVarTrees == IdVarCore \cup {B("mul", Num(3, 1), t) : t \in IdVarCore} \cup {B("add", t, V("y")) : t \in IdVarCore}
+PickIdVar == /\ Family = "idvar" /\ done = "no" /\ (\E t \in IdVarTrees : tree' = t) /\ done' = "yes" /\ UNCHANGED base
 PickId == /\ Family = "idlog" /\ done = "no" /\ (\E t \in IdTrees : tree' = t) /\ done' = "yes" /\ UNCHANGED base
 \* family "prune": a zero or variable denominator inside an operand that a later pass could drop without
 \* looking at it: a min / max operand another operand dominates whatever the variables are, a logic
@@ -89,7 +99,7 @@ PruneTrees == UNION {{N2("max", B("add", V("x"), Num(9, 1)), B("mul", Num(0, 1),
                       N2("or", V("p"), t), N2("and", t, V("p")), U("not", N2("or", V("p"), t))} : t \in DivBases}
 PickPrune == /\ Family = "prune" /\ done = "no" /\ (\E t \in PruneTrees : tree' = t) /\ done' = "yes" /\ UNCHANGED base
 PickAssoc == /\ Family = "assoc" /\ done = "no" /\ (\E t \in AssocTrees : tree' = t) /\ done' = "yes" /\ UNCHANGED base
-PickBase == /\ Family \notin {"d1", "assoc", "idlog", "prune"} /\ done = "no"
+PickBase == /\ Family \notin {"d1", "assoc", "idlog", "idvar", "prune"} /\ done = "no"
             /\ \E t \in (CASE Family = "d2num" -> NumD1_(0) \ NumLeaves [] Family = "zero" -> DivBases [] Family = "negsum" -> SumBases
                            [] OTHER -> LogD1_(0) \ LogLeaves) : base' = t
             /\ done' = "base" /\ UNCHANGED tree
@@ -99,7 +109,7 @@ Wrap == /\ done = "base"
                        [] Family = "negsum" -> NegWrap(base)
                        [] OTHER -> WrapLog(base) \cup WrapLogAsNum(base)) : tree' = t
         /\ done' = "yes" /\ UNCHANGED base
-Next == PickD1 \/ PickAssoc \/ PickId \/ PickPrune \/ PickBase \/ Wrap
+Next == PickD1 \/ PickAssoc \/ PickId \/ PickIdVar \/ PickPrune \/ PickBase \/ Wrap
 Spec == Init /\ [][Next]_vars
 Emit == done = "yes" => PrintT(<<"CASE", ToJson([tree |-> tree])>>)
 =============================================================================
